@@ -13,7 +13,7 @@ from ._pairs import compare_all, table_state_keys, V
 
 PID = "C15"
 LEVEL = "model_checking"
-WITNESSES = ["permuted_columns", "extra_column", "reindexed", "extra_rows", "thermal_crop", "combined_transformations", "season_calendar_checked_by_name", "nights_below_base_temperature", "weather_matrix_checked_by_date", "same_dates_other_row_offset", "stepwise_blocks"]
+WITNESSES = ["permuted_columns", "extra_column", "reindexed", "extra_rows", "thermal_crop", "combined_transformations", "season_calendar_checked_by_name", "nights_below_base_temperature", "weather_matrix_checked_by_date", "same_dates_other_row_offset", "stepwise_blocks", "rerun_with_later_start"]
 NONTRIVIAL = WITNESSES
 
 COLS = ["MinTemp", "MaxTemp", "Precipitation", "ReferenceET", "Date"]
@@ -64,6 +64,8 @@ def byname_scenarios(tier):
             for perm in ([0, 1, 2, 3, 4], [1, 0, 3, 2, 4], [4, 3, 2, 1, 0]):
                 yield {"kind": "byname", "method": meth, "word": word, "perm": perm, "extra": "front", "index": "shift1000", "rows": "lead400"}
         # the same oracle under step-wise execution (blocks of days that contain a harvest and the jump to the next planting date)
+        for restart in (368, 40):
+            yield {"kind": "byname", "method": meth, "word": "coolnights", "perm": [0, 1, 2, 3, 4], "extra": "none", "index": "range", "rows": "lead400", "restart": restart}
         for steps in (30, 7, 400):
             yield {"kind": "byname", "method": meth, "word": "coolnights", "perm": [1, 0, 3, 2, 4], "extra": "none", "index": "range", "rows": "lead400", "steps": steps}
 
@@ -97,6 +99,23 @@ def run_byname(scn):
                     guard += 1
             t = tables(m)
             res["witness"]["stepwise_blocks"] = 1
+        except BaseException as e:  # noqa: BLE001
+            if isinstance(e, (KeyboardInterrupt, SystemExit)):
+                raise
+            a = describe_exception(e)
+    elif scn.get("restart"):
+        # history: the same model object is run, then its start date is moved later through the public setter and it is run again
+        from ..driver import tables, describe_exception, watchdog
+        t, a, m = None, None, None
+        try:
+            with watchdog(120):
+                m = S.make_model(spec, ent)
+                m.run_model(till_termination=True)
+                new_start = S.parse_date(spec["start"]) + __import__("datetime").timedelta(days=int(scn["restart"]))
+                m.sim_start_time = new_start.strftime("%Y/%m/%d")
+                m.run_model(till_termination=True)
+            t = tables(m)
+            res["witness"]["rerun_with_later_start"] = 1
         except BaseException as e:  # noqa: BLE001
             if isinstance(e, (KeyboardInterrupt, SystemExit)):
                 raise
